@@ -188,6 +188,15 @@ def S9():
                     ("decl", "Signal", "r1", B("*", V("t1"), I(2)))], ["r1"])
     yield mk("S9", [("decl", "Signal", "s1", ("proj", B("+", V("x"), I(1)), "signal-X")), ("decl", "Signal", "a1", ("proj", B("+", V("s1"), I(1)), "signal-X")),
                     ("decl", "Signal", "r1", ("proj", B("*", V("s1"), V("a1")), "signal-X"))], ["r1"])
+    # a NAMED sub-result projected indirectly (through a helper function / a unary plus) and also used directly
+    tox = ("func", "tox", [("Signal", "v")], [], ("proj", V("v"), "signal-X"))
+    s1 = ("decl", "Signal", "s1", B("*", A, V("c")))
+    r2 = ("decl", "Signal", "r2", ("proj", B("+", V("s1"), I(1)), "signal-D"))
+    yield mk("S9", [tox, s1, ("decl", "Signal", "r1", ("call", "tox", [V("s1")])), r2], ["r1", "r2"])
+    yield mk("S9", [s1, ("decl", "Signal", "r1", ("proj", ("un", "+", V("s1")), "signal-X")), r2], ["r1", "r2"])
+    yield mk("S9", [s1, ("decl", "Signal", "r1", ("proj", V("s1"), "signal-X")), r2], ["r1", "r2"])
+    yield mk("S9", [tox, ("decl", "Signal", "s1", B(">", A, V("c"))), ("decl", "Signal", "r1", ("call", "tox", [V("s1")])),
+                    ("decl", "Signal", "r2", B("+", V("s1"), V("i")))], ["r1", "r2"])
     # one product projected to two types and both consumed again
     yield mk("S9", [("decl", "Signal", "x1", ("proj", B("*", A, Bb), "signal-X")), ("decl", "Signal", "y1", ("proj", B("*", A, Bb), "signal-Y")),
                     ("decl", "Signal", "r1", B("-", V("x1"), V("y1"))), ("decl", "Signal", "r2", B("*", V("y1"), I(2)))], ["r1", "r2"])
